@@ -242,28 +242,39 @@ inductive Err where
   | panic      -- an `assert!`/`panic!` in the source fired
   deriving DecidableEq, Repr
 
+/-- neighbour function of the topological sort in `resolve_rewrite_mapping_with` -/
+def replOf (m : Mapping) (pred : Rewrite → Bool) (id : Nat) : List Nat :=
+  match m.getIf pred id with
+  | none => []
+  | some rw => rw.newParentIds
+
+/-- `new_mapping.get(id).map_or(slice::from_ref(id), |ids| ids)` -/
+def lookupOr (nm : List (Nat × List Nat)) (id : Nat) : List Nat :=
+  match nm.lookup id with
+  | some ids => ids
+  | none => [id]
+
+/-- the `match rewrite.new_parent_ids()` of `resolve_rewrite_mapping_with` -/
+def resolvedIds (nm : List (Nat × List Nat)) (repl : List Nat) : List Nat :=
+  match repl with
+  | [id] => lookupOr nm id
+  | ids => dedup (ids.flatMap (lookupOr nm))
+
+/-- the body of the `for old_id in sorted_ids` loop of `resolve_rewrite_mapping_with` -/
+def resolveStep (m : Mapping) (pred : Rewrite → Bool) (nm : List (Nat × List Nat)) (old : Nat) :
+    List (Nat × List Nat) :=
+  match m.getIf pred old with
+  | none => nm
+  | some rw => nm ++ [(old, resolvedIds nm rw.newParentIds)]
+
 /-- `resolve_rewrite_mapping_with`: keys are sorted with their replacements first, then resolved
     through the already-resolved entries. -/
 def resolveRewriteMappingWith (m : Mapping) (pred : Rewrite → Bool) :
     Except Err (List (Nat × List Nat)) :=
-  let nb := fun (_ : Unit) (id : Nat) =>
-    (match m.getIf pred id with
-     | none => []
-     | some rw => rw.newParentIds, ())
-  match topoOrderForward (walkFuel (m.length + mappingSize m)) m.keys nb () with
+  match topoOrderForward (walkFuel (m.length + mappingSize m)) m.keys
+      (fun (_ : Unit) (id : Nat) => (replOf m pred id, ())) () with
   | none => .error .cycle
-  | some sorted =>
-    .ok <| sorted.foldl (fun (nm : List (Nat × List Nat)) old =>
-      match m.getIf pred old with
-      | none => nm
-      | some rw =>
-        let lookup := fun id => match nm.lookup id with
-          | some ids => ids
-          | none => [id]
-        let newIds := match rw.newParentIds with
-          | [id] => lookup id
-          | ids => dedup (ids.flatMap lookup)
-        nm ++ [(old, newIds)]) []
+  | some sorted => .ok (sorted.foldl (resolveStep m pred) [])
 
 /-! ### ref targets (`lib/src/refs.rs`), local literal copy -/
 
